@@ -1264,6 +1264,10 @@ VmTrap vm_core_execute(VmState *vm) {
                 vm_release(&vm->heap, arr);
                 return trap_error(vm, VM_ERR_TYPE_ERROR, "ARR_POP: not an array");
             }
+            if (arr.as.array->length == 0) {
+                vm_release(&vm->heap, arr);
+                return trap_error(vm, VM_ERR_OUT_OF_BOUNDS, "ARR_POP: array is empty");
+            }
             NanoValue v = vm_array_pop(arr.as.array);
             stack_push(vm, v);
             stack_push(vm, arr);
@@ -1277,7 +1281,14 @@ VmTrap vm_core_execute(VmState *vm) {
                 vm_release(&vm->heap, arr);
                 return trap_error(vm, VM_ERR_TYPE_ERROR, "ARR_GET: not an array");
             }
-            uint32_t idx = (uint32_t)(idx_v.tag == TAG_INT ? idx_v.as.i64 : 0);
+            int64_t idx64 = (idx_v.tag == TAG_INT ? idx_v.as.i64 : 0);
+            if (idx64 < 0 || idx64 >= (int64_t)arr.as.array->length) {
+                long long alen = (long long)arr.as.array->length;
+                vm_release(&vm->heap, arr);
+                return trap_error(vm, VM_ERR_OUT_OF_BOUNDS,
+                                  "ARR_GET: index %lld out of bounds [0..%lld)", (long long)idx64, alen);
+            }
+            uint32_t idx = (uint32_t)idx64;
             NanoValue v = vm_array_get(arr.as.array, idx);
             vm_retain(v);
             vm_release(&vm->heap, arr);
@@ -1294,7 +1305,15 @@ VmTrap vm_core_execute(VmState *vm) {
                 vm_release(&vm->heap, v);
                 return trap_error(vm, VM_ERR_TYPE_ERROR, "ARR_SET: not an array");
             }
-            uint32_t idx = (uint32_t)(idx_v.tag == TAG_INT ? idx_v.as.i64 : 0);
+            int64_t idx64 = (idx_v.tag == TAG_INT ? idx_v.as.i64 : 0);
+            if (idx64 < 0 || idx64 >= (int64_t)arr.as.array->length) {
+                long long alen = (long long)arr.as.array->length;
+                vm_release(&vm->heap, arr);
+                vm_release(&vm->heap, v);
+                return trap_error(vm, VM_ERR_OUT_OF_BOUNDS,
+                                  "ARR_SET: index %lld out of bounds [0..%lld)", (long long)idx64, alen);
+            }
+            uint32_t idx = (uint32_t)idx64;
             vm_release(&vm->heap, vm_array_get(arr.as.array, idx));
             vm_array_set(arr.as.array, idx, v);
             stack_push(vm, arr);
@@ -1336,9 +1355,15 @@ VmTrap vm_core_execute(VmState *vm) {
                 vm_release(&vm->heap, arr);
                 return trap_error(vm, VM_ERR_TYPE_ERROR, "ARR_REMOVE: not an array");
             }
-            uint32_t idx = (uint32_t)(idx_v.tag == TAG_INT ? idx_v.as.i64 : 0);
-            /* the array owns one reference to each element: drop the removed one's
-             * (vm_array_get yields void when idx is out of range) */
+            int64_t idx64 = (idx_v.tag == TAG_INT ? idx_v.as.i64 : 0);
+            if (idx64 < 0 || idx64 >= (int64_t)arr.as.array->length) {
+                long long alen = (long long)arr.as.array->length;
+                vm_release(&vm->heap, arr);
+                return trap_error(vm, VM_ERR_OUT_OF_BOUNDS,
+                                  "ARR_REMOVE: index %lld out of bounds [0..%lld)", (long long)idx64, alen);
+            }
+            uint32_t idx = (uint32_t)idx64;
+            /* the array owns one reference to each element: drop the removed one's */
             NanoValue removed = vm_array_get(arr.as.array, idx);
             vm_array_remove(arr.as.array, idx);
             vm_release(&vm->heap, removed);
